@@ -755,6 +755,9 @@ pub fn run_property(prop: &str, tier: &str) -> i32 {
     if !rep.over_cap() {
         cli_binding(&rep, prop);
     }
+    if matches!(prop, "C07" | "C10") && !rep.over_cap() {
+        crate::eclean::run_into(&rep, prop);
+    }
     if prop == "C08" {
         crate::crash::run_into(&rep);
     }
